@@ -44,7 +44,7 @@ def multi_group(prog, sel):
 def run(ctx):
     im = impl()
     rnd = ctx.rnd
-    n = ctx.n(800, 100000)
+    n = ctx.n(800, 200000)
     ninputs = 20
     pg = ProgGen(rnd, Profile(max_depth=2, max_arms=3, pred_depth=2, splitters=(1, 3), p_shared=0.3, weights="int"))
     R = Renderer(rnd, 0.1)
